@@ -224,13 +224,36 @@ def translate():
 # shared: case descriptions, the real calls, the wire encoding
 # ----------------------------------------------------------------------------------------
 THEOREMS = [
-    'C07.fmtFixed_error', 'C07.parseNum_fmtFixed', 'C07.fixedVal_error', 'C07.parseInt_intTok',
+    # whole files: independent parser o writer, for every system (induction over atoms / columns / styles)
+    'C07.data_parse_write', 'C07.data_wellformed', 'C07.dump_parse_write', 'C07.poscar_parse_write',
+    'C07.table_parse_write',
+    # their building blocks that carry a clause of the property on their own
+    'C07.layoutOf_styleCols', 'C07.atom_tables_agree', 'C07.vel_tables_agree', 'C07.atom_row', 'C07.vel_row',
+    'C07.data_atoms_inside', 'C07.tilt_line_iff', 'C07.lexDoc_renderLines', 'C07.readDataFile_dataDoc',
+    # numbers
+    'C07.fmtFixed_error', 'C07.parseNum_fmtFixed', 'C07.fixedVal_error', 'C07.fmtExp_error', 'C07.parseNum_fmtExp',
+    'C07.expVal_error', 'C07.expOf_spec', 'C07.parseNum_fmtNum', 'C07.parseInt_intTok',
     'C07.dump_bbox', 'C07.dump_bbox_corners', 'C07.dump_bbox_lo_lt_hi',
     'C07.poscar_scale', 'C07.info_names_used',
     'C07.atom_style_columns_match_lammps', 'C07.velocity_columns_match_lammps', 'C07.dump_columns_match_lammps',
     'C07.unit_styles_match_lammps',
 ]
-PARTIAL = {}
+PARTIAL = {
+    'inside the written bounds / lo < hi AFTER rounding':
+        'data_wellformed proves "every atom inside the bounds" and "lo < hi" for the exact numbers the file prints (each '
+        'printed number is within half a unit of its last place of them: fmtFixed_error / fmtExp_error) and lo < hi of the '
+        'printed bounds for %.nf when the extent exceeds one unit of the last place; the propagated slack eps(box, format) for '
+        'the rounded positions relative to the rounded box is not a theorem: it is evaluated by the oracle (dataWellFormed d '
+        'eps on every real output)',
+    'hypotheses of the whole-file theorems':
+        'data: integer LAMMPS fields (mol, flags, spin, etag, ...) are stored as integer properties (IntTyped), else LAMMPS '
+        'itself rejects the line; dump/table: column names are single words; POSCAR: atom types lie in 1..natypes, header/'
+        'symbols/coordstyle are single-line words, the first symbol is not a number, coordstyle does not start with S/s '
+        '(VASP reads that as "Selective dynamics"), the printed scale factor is positive',
+    'dump positions by column variant':
+        'dump_parse_write returns every row as written cells; that the x/xs/xu/xsu columns unscale to the positions is '
+        'covered by the correspondence (dumpPositions on every real output), not by a theorem',
+}
 RULE = ('systems of 1-10 atoms in orthogonal/triclinic cells (origin anywhere, all 8 pbc settings), atoms inside, outside and '
         'exactly on faces; two regimes: "grid" (power-of-two cell lengths, dyadic tilts/positions: the float arithmetic of '
         'wrap and of the writers is exact, texts must be identical) and "generic" doubles (texts compared to the printed '
@@ -255,11 +278,17 @@ TRUSTED = ['numpy/pandas in the real writers', 'the Python oracle parsers in har
 MANIFEST = {
     'text': 'Lean model of the four writers (exact %.Nf/%.Ne printing of rationals, wrap with image flags, header/box/'
             'Atoms/Velocities layout, dump bounding box, POSCAR scaling) plus independent parsers written from the LAMMPS/'
-            'VASP format rules; theorems: reading back a printed number is within half a unit of the last place, '
-            'bounding-box identities and inverse, POSCAR scale applies to lattice and Cartesian rows, the command snippet '
-            'names the units/atom_style/boundary used, generated atom-style/dump/unit tables equal the hand-encoded LAMMPS '
-            'tables. Tie: text equality atomman-vs-model on every case (exact on the dyadic grid), Lean parser applied to '
-            'the real output and compared with the system; failing-input search with an independent Python parser.',
+            'VASP format rules. Whole-file theorems, for EVERY system, atom_style (hybrids included), unit factors and '
+            '%.nf/%.ne format: independent parser applied to the written text = the system normalised by wrap / type '
+            'grouping with every number at its printed precision (data_parse_write, dump_parse_write, poscar_parse_write, '
+            'table_parse_write); data_wellformed (counts match, ids exactly 1..N, lo<hi, every atom inside the written '
+            'bounds via the C05 wrap lemmas, tilt line iff a tilt is non-zero); the LAMMPS line layout of every style equals '
+            'the written columns field for field and unit kind for unit kind (layoutOf_styleCols); reading back a printed '
+            'number is within half a unit of the last place (%.nf and %.ne), bounding-box identities and inverse, POSCAR '
+            'scale applies to lattice and Cartesian rows, the command snippet names the units/atom_style/boundary used, '
+            'generated atom-style/dump/unit tables equal the hand-encoded LAMMPS tables. Tie: text equality atomman-vs-model '
+            'on every case (exact on the dyadic grid), Lean parsers applied to the real output and compared with the system; '
+            'failing-input search with an independent Python parser.',
     'note': 'Trusted: Lean kernel + propext/Classical.choice/Quot.sound; the table extractor (exec of the pure prop_info '
             'functions with a symbolic style.unit) and the correspondence harness; CPython/pandas number printing; the '
             'hand-transcribed LAMMPS manual tables.',
@@ -1570,7 +1599,9 @@ def run_cases(ctx, cases, tie=True):
             if minfo != real[2]:
                 ctx.disagree('data:info', f'command snippet differs: atomman {real[2]!r}, model {minfo!r}',
                              {'op': kind, 'case': case_replay(c)})
-        if tie and not unresolved(c, rtext):
+        if tie and kind == 'table':
+            follow.append((c, real, f"ptable {1 if c['header'] else 0} {hexs(rtext)}"))
+        elif tie and not unresolved(c, rtext):
             if kind == 'data':
                 f = unit_factors(c['units']).get('length') or Fraction(1)
                 ext = min(abs(F(c['d']['vects'][i][i])) for i in range(3)) / f
@@ -1589,6 +1620,12 @@ def run_cases(ctx, cases, tie=True):
         if not o.startswith('ok'):
             ctx.disagree(f'{kind}:unparsable', f'the independent {kind} parser of the model rejects atomman\'s output ({o})',
                          {'op': kind, 'case': case_replay(c), 'real': real[1]})
+            continue
+        if kind == 'table':
+            if not table_same(o, real[1], c['header']):
+                ctx.disagree('table:parsers', 'table: the model reader and the Python split-at-blanks reader read different '
+                                              'column names / values from atomman\'s output',
+                             {'op': kind, 'case': case_replay(c), 'real': real[1]})
             continue
         try:
             if kind == 'data':
@@ -1616,6 +1653,29 @@ def run_cases(ctx, cases, tie=True):
         for key, msg in fails:
             ctx.disagree(f'{kind}:describes:{key}', f'{kind} file read by the model parser does not describe the system: {msg}',
                          {'op': kind, 'case': case_replay(c), 'real': real[1]})
+
+
+def table_same(o, text, header):
+    """reply of the Lean `parseTable` vs an independent split-at-blanks reading of the same text."""
+    it = iter(o.split()[1:])
+    cols = next(it)
+    cols = None if cols == '-' else cols.split('+')
+    rows = []
+    for _ in range(int(next(it))):
+        n = int(next(it))
+        rows.append([Fraction(next(it)) for _ in range(n)])
+    lines = text.split('\n')
+    if lines and lines[-1] == '':
+        lines.pop()
+    want_cols = None
+    if header:
+        want_cols = lines[0].split()
+        lines = lines[1:]
+    try:
+        want = [[p_num(t) for t in l.split()] for l in lines]
+    except ValueError:
+        return False
+    return cols == want_cols and rows == want
 
 
 def decode_pdump(o, text):
